@@ -849,6 +849,15 @@ class Evaluator:
             old = self.load_name(t.id, env, t)
             new = ("bin", op, old, val)
             self.emit("augname", ctx, st, name=t.id, old=old, op=op, value=val)
+            # x = y; x += z : for a mutable object (ndarray, list, DataFrame) the update is in place and y sees it too; for a number or a string it
+            # does not.  The value terms follow the rebinding reading; the other names / parameters that hold the same object are recorded.
+            so = strip(old)
+            if head(so) not in ("const", "bin", "un", "cmp", None) and not (head(so) == "call" and head(strip(so[1])) == "glob" and strip(so[1])[1] in ("builtins.len", "builtins.int", "builtins.float", "builtins.sum", "builtins.str")):
+                others = [n for n, v_ in env.items() if isinstance(n, str) and n != t.id and isinstance(v_, tuple) and strip(v_) == so]
+                if head(so) == "param":
+                    others.append("<parameter " + so[1] + ">")
+                if others:
+                    self.emit("alias_aug", ctx, st, name=t.id, others=tuple(others), old=old)
             self.bind(t, new, env, ctx)
         elif isinstance(t, ast.Attribute):
             obj = self.ev(t.value, env, ctx)
